@@ -536,7 +536,7 @@ func (se *SpecEnv) index(e *SIndex) SVal {
 	switch xt := x.Ty.Underlying().(type) {
 	case *types.Slice:
 		s := se.value(x)
-		a := &Addr{Ref: refElem(sBase(s), app(SInt, "+", sOff(s), i)), Elem: xt.Elem()}
+		a := &Addr{Ref: sliceAt(s, i), Elem: xt.Elem()}
 		if isStruct(xt.Elem()) {
 			return SVal{Ty: xt.Elem(), A: a}
 		}
